@@ -247,6 +247,17 @@ type Attr struct {
 	I    int
 	L    []int // col IN (L...) - only as a map condition
 	More *Attr // a second column in the same struct / map value (Attrs and Assign only)
+	// Field: the key of a map / kv attribute is spelled as the Go field name ("Name") instead of the column
+	// name ("name") - schema.LookUpField accepts both (Attrs and Assign only)
+	Field bool
+}
+
+// key is the attribute's name as the caller spells it.
+func (a Attr) key() string {
+	if a.Field {
+		return strings.ToUpper(a.Col[:1]) + a.Col[1:]
+	}
+	return a.Col
 }
 
 type Op struct {
@@ -265,6 +276,8 @@ type Op struct {
 	// PreOC: an OnConflict rule that is already on the chain when the operation adds its own (a default
 	// set on a session, say): the later rule replaces it as a whole
 	PreOC string // "" | nothing-code | updates-code
+	// Deref: Save is handed a pointer to the pointer (**T, **[]T) - Save walks through every level
+	Deref bool
 	// first-or-*: the chain starts with Unscoped() (soft-deleted rows are matched, and written)
 	Unscoped bool
 	// first-or-*
@@ -285,9 +298,9 @@ func (a Attr) String() string {
 		return fmt.Sprintf("%s:%s IN %v", a.Form, a.Col, a.L)
 	}
 	if a.Col == "age" {
-		return fmt.Sprintf("%s:%s=%d", a.Form, a.Col, a.I)
+		return fmt.Sprintf("%s:%s=%d", a.Form, a.key(), a.I)
 	}
-	return fmt.Sprintf("%s:%s=%q", a.Form, a.Col, a.S)
+	return fmt.Sprintf("%s:%s=%q", a.Form, a.key(), a.S)
 }
 
 func (o Op) String() string {
@@ -296,8 +309,14 @@ func (o Op) String() string {
 		if o.PreOC != "" {
 			return fmt.Sprintf("Clauses(OnConflict{%s}).Save(%+v)", o.PreOC, o.V)
 		}
+		if o.Deref {
+			return fmt.Sprintf("Save(**T %+v)", o.V)
+		}
 		return fmt.Sprintf("Save(%+v)", o.V)
 	case "saveslice":
+		if o.Deref {
+			return fmt.Sprintf("Save(**[]T%+v)", o.Vs)
+		}
 		return fmt.Sprintf("Save(&[]T%+v)", o.Vs)
 	case "upsertslice":
 		w := ""
@@ -391,17 +410,17 @@ func attrArgs(a Attr, kind int) []interface{} {
 				continue
 			}
 			if x.Col == "age" {
-				mv["age"] = x.I
+				mv[x.key()] = x.I
 			} else {
-				mv[x.Col] = x.S
+				mv[x.key()] = x.S
 			}
 		}
 		return []interface{}{mv}
 	}
 	if a.Col == "age" {
-		return []interface{}{"age", a.I}
+		return []interface{}{a.key(), a.I}
 	}
-	return []interface{}{a.Col, a.S}
+	return []interface{}{a.key(), a.S}
 }
 
 // condArgs returns the condition in the given form as the argument list of Where / the finisher.
@@ -515,7 +534,13 @@ func run(d *testdb.DB, kind int, o Op, v variant) Outcome {
 			tx = v.apply(tx.Clauses(preClause(o.PreOC)), 1)
 		}
 		r := recOf(kind, o.V)
-		res = tx.Save(r.Interface())
+		if o.Deref {
+			pp := reflect.New(r.Type())
+			pp.Elem().Set(r)
+			res = tx.Save(pp.Interface())
+		} else {
+			res = tx.Save(r.Interface())
+		}
 		out.Out, out.OutValid = rowOf(r), true
 	case "saveslice":
 		tx := v.apply(db, 0)
@@ -523,7 +548,13 @@ func run(d *testdb.DB, kind int, o Op, v variant) Outcome {
 		for _, x := range o.Vs {
 			sl.Elem().Set(reflect.Append(sl.Elem(), recOf(kind, x).Elem()))
 		}
-		res = tx.Save(sl.Interface())
+		if o.Deref {
+			pp := reflect.New(sl.Type())
+			pp.Elem().Set(sl)
+			res = tx.Save(pp.Interface())
+		} else {
+			res = tx.Save(sl.Interface())
+		}
 	case "upsertslice":
 		oc := clause.OnConflict{UpdateAll: true}
 		if o.Rule == "updates-id" {
@@ -1158,6 +1189,9 @@ func genAttr(t *rapid.T, label string, cols []string, allowZero bool) Attr {
 	a := Attr{Form: rapid.SampledFrom([]string{"struct", "map", "kv"}).Draw(t, label+".form"),
 		Col: rapid.SampledFrom(cols).Draw(t, label+".col")}
 	zeroOK := allowZero && a.Form != "struct" // a zero struct field is "not given"
+	if a.Form != "struct" && (label == "attrs" || label == "assign" || strings.HasSuffix(label, ".more")) {
+		a.Field = rapid.IntRange(0, 3).Draw(t, label+".field") == 0
+	}
 	switch a.Col {
 	case "age":
 		lo := 1
@@ -1210,6 +1244,7 @@ func genOp(t *rapid.T, m *Model) Op {
 			// with a zero key Save is a plain Create and the caller's rule is the one in effect
 			o.PreOC = rapid.SampledFrom([]string{"nothing-code", "updates-code"}).Draw(t, "preocRule")
 		}
+		o.Deref = rapid.IntRange(0, 5).Draw(t, "deref") == 0
 	case "upsertslice":
 		// 2-3 records, some with a key (existing or not), some without; conflicts are by key only: a record
 		// whose key exists carries that row's code, every other record a code nobody holds. A condition on
@@ -1273,6 +1308,7 @@ func genOp(t *rapid.T, m *Model) Op {
 			v.ID, v.Code = uint(ids[i]), codes[i]
 			o.Vs = append(o.Vs, v)
 		}
+		o.Deref = rapid.IntRange(0, 5).Draw(t, "deref") == 0
 	case "upsert":
 		o.V = genVal(t, "v", m.Kind)
 		o.Rule = rapid.SampledFrom([]string{"nothing", "nothing-id", "updates-id", "updates-code", "updateall", "updateall-code", "assign-id", "assign-code"}).Draw(t, "rule")
